@@ -497,6 +497,18 @@ impl<'a> Gen<'a> {
         name
     }
 
+    /// an integer variable in scope or a literal near the ends of the 64-bit range
+    fn boundary_atom(&mut self, env: &[Bind]) -> Tm {
+        let vs = Self::vars_of(env, &Ty::I64, false);
+        let fuel = self.fuel_name();
+        let vs: Vec<String> = vs.into_iter().filter(|v| Some(v) != fuel.as_ref()).collect();
+        if !vs.is_empty() && self.c.prob(130) {
+            return Tm::Var(vs[self.c.choose(vs.len())].clone());
+        }
+        const B: [i64; 12] = [i64::MAX, i64::MIN, i64::MAX - 1, i64::MIN + 1, 1 << 62, -(1 << 62), (1 << 62) + 1, 3037000500, -3037000500, 1, -1, 2];
+        Tm::Lit(B[self.c.choose(B.len())])
+    }
+
     fn fuel_name(&self) -> Option<String> {
         if self.cur < self.sigs.len() && self.sigs[self.cur].fuel {
             Some(self.sigs[self.cur].params[0].name.clone())
@@ -781,7 +793,16 @@ impl<'a> Gen<'a> {
                 let s = self.split(size - 1, if zero { 3 } else { 4 });
                 let sort = Cmp::ALL[self.c.choose(6)];
                 let op_pure = pure || !self.cfg.effects_in_args;
-                let fst = self.gen_tm_rec(env, &Ty::I64, s[0] / 2, op_pure, in_rec);
+                let fst = if self.c.prob(60) {
+                    // arithmetic on boundary values directly under the comparison (wrap-around must
+                    // survive every rewriting of conditionals)
+                    let a = self.boundary_atom(env);
+                    let b = self.boundary_atom(env);
+                    let op = [BinOp::Sub, BinOp::Add, BinOp::Mul][self.c.choose(3)];
+                    Tm::Op(Box::new(a), op, Box::new(b))
+                } else {
+                    self.gen_tm_rec(env, &Ty::I64, s[0] / 2, op_pure, in_rec)
+                };
                 let (snd, zero_left, k) = if zero {
                     (None, self.c.prob(90), 1)
                 } else {
